@@ -132,8 +132,10 @@ PROPS = {
                  "C04_complete_partial (well-formed => accepted when no non-zero assertion on a non-A/L account occurs). The one deviation of the code from the "
                  "property text is pinned by kernel-checked witnesses (C04_nonAL_assertion_rejected) and listed as a known finding. Tie: journals from a lifecycle "
                  "automaton plus targeted mutations run through the real loader + check.Check() in-process and through `knut check|print|balance`; verdict and named "
-                 "directive compared with the model; the Lean specification is evaluated on the real verdict of every case.",
-        "note": "Trusted: Lean kernel; axioms propext, Classical.choice, Quot.sound; the parser/loader glue between file text and model directives (covered by C07/C05 checks); "
+                 "directive compared with the model; the Lean specification is evaluated on the real verdict of every case. The glue from file text to the builder is tied as well: the file bytes go "
+                 "through the Lean parser model, Model/FromSyntax (Date.Parse, Decimal.Parse, account/commodity registries), Model/Accrual and the builder model, and the resulting days are compared "
+                 "with a dump of the days the REAL loader built (op loadtext), incl. semantic damage (Feb 30, month 13, day 00, non-ASCII digits, macro accounts, unknown account types, year 0000).",
+        "note": "Trusted: Lean kernel; axioms propext, Classical.choice, Quot.sound; "
                 "error message texts are not modelled, only verdict and named directive.  @accrue-annotated transactions are generated too and expanded on the model side by Model/Accrual (C10).",
         "rule": "journals generated by an account-lifecycle automaton (2-6 accounts of all five types incl. nested ones, 1-3+ commodities incl. Unicode names, 1-5 days, same-day "
                 "open/use/assert/close, multi-booking transactions, zero and negative amounts, multi-balance assertions) with at most one mutation out of: drop-open, duplicate-open, "
